@@ -87,6 +87,19 @@ func C15(tier string) int {
 			}
 		}
 	}
+	// non-ASCII words, in UTF-8 and in ISO-8859-1 (literal arguments; 8-bit is not allowed in quoted strings)
+	for _, k := range []wire.Expr{{Op: "key", K: "TEXT", Arg: "caf\u00e9"}, {Op: "key", K: "BODY", Arg: "cr\u00e8me"}, {Op: "key", K: "TEXT", Arg: "CAF\u00c9 CR"}, {Op: "key", K: "BODY", Arg: "caf\u00e8"}} {
+		for _, l1 := range []bool{false, true} {
+			e := k
+			e.Enc, e.Latin1 = "l", l1
+			cs := "UTF-8"
+			if l1 {
+				cs = "ISO-8859-1"
+			}
+			cases = append(cases, wire.C15Case{View: "fresh", E: e, Charset: cs})
+			cases = append(cases, wire.C15Case{View: "fresh", UID: true, Charset: cs, E: wire.Expr{Op: "or", Sub: []wire.Expr{{Op: "key", K: "DELETED"}, {Op: "not", Sub: []wire.Expr{e}}}}})
+		}
+	}
 	var pending []any
 	for _, a := range keys {
 		pending = append(pending, wire.C15Case{View: "pending", E: a})
